@@ -537,10 +537,13 @@ def _stmt_task(tname):
         members = [[k for k, v in el.u.names.items() if v == layer.fields["0"].fields["0"]][0]] * layer.fields["1"]
     for mod in (0, 1):
         for a in ls:
-            forms = [a]
+            forms = [a, []]
             if members and len(members) <= 4:
                 forms.append([a] * len(members))
                 forms.append([a] * (len(members) + 1))
+            else:
+                forms.append([a])
+                forms.append([a, a])
             for form in forms:
                 cases += 1
                 res, operands = el.run_initializer(tname, mod, form)
@@ -553,7 +556,9 @@ def _stmt_task(tname):
                     continue
                 n_ok += 1
                 init = res[1]
-                if isinstance(init, I.Enum) and init.variant == "Expression":
+                if form == []:
+                    addbad(bad, "%s: an empty aggregate is accepted" % what)
+                elif isinstance(init, I.Enum) and init.variant == "Expression":
                     e = init.fields["0"]
                     # `{ x }` for a scalar is read as `x`
                     if el.leaves(e) != ["L"] or _base_of(el, e, operands) != want or not el.casts_ok(e, operands):
@@ -1007,6 +1012,7 @@ def run(chk):
     rule_through(chk, binop_evaluated=rb)
     rule_total(chk)
     rule_swizzle_value_type(chk)
+    rule_matrix_subscript(chk)
     rule_lvalue_destination(chk)
 
 
@@ -1318,6 +1324,78 @@ def rule_swizzle_value_type(chk):
                "%d slot sequences: a repeated component makes the swizzle an rvalue, otherwise the value category is kept" % n if not bad else
                "%s: %d of %d slot sequences get the wrong value category, e.g. swizzle %s of an %s is %s (must be %s): a repeated component becomes assignable"
                % ((name, len(bad), n) + tuple(bad[0])), where(fn), sample={"fn": name, "sequences": n, "wrong": len(bad)})
+
+
+def matrix_subscript_names(x, y):
+    """element-name strings for a matrix of x rows and y columns: every single `_mRC` / `_RC` with digits 0..5, pairs and
+    quadruples built from them, both notations mixed, and malformed spellings"""
+    singles = ["_m%d%d" % (a, b) for a in range(5) for b in range(5)] + ["_%d%d" % (a, b) for a in range(6) for b in range(6)]
+    out = list(singles)
+    for s in singles:
+        m = s.startswith("_m")
+        out.append(s + ("_m00" if m else "_11"))
+        out.append(("_m00" if m else "_11") + s)
+        out.append(s + ("_11" if m else "_m00"))
+    out += ["_m00_m00_m00_m00", "_11_11_11_11", "_m00_m00_m00_m00_m00", "_11_11_11_11_11", "", "_", "_m", "_m0", "_1", "m00", "11", "_m000", "_111",
+            "_m00_", "_m00_m", "_x", "_m0a", "__11", "_M00"]
+    return out
+
+
+def matrix_subscript_reference(x, y, s):
+    """-> list of (row, column) or None when the name is not an element list of an x by y matrix"""
+    import re
+    if re.fullmatch(r"(_m[0-3][0-3]){1,4}", s):
+        slots = [(int(s[i + 2]), int(s[i + 3])) for i in range(0, len(s), 4)]
+    elif re.fullmatch(r"(_[1-4][1-4]){1,4}", s):
+        slots = [(int(s[i + 1]) - 1, int(s[i + 2]) - 1) for i in range(0, len(s), 3)]
+    else:
+        return None
+    if any(r >= x or c >= y for r, c in slots):
+        return None
+    return slots
+
+
+def rule_matrix_subscript(chk):
+    """Named matrix elements (`m._m12`, `m._23`, up to four of them): read_matrix_subscript read as a finite map over all
+    16 matrix shapes x 150 element-name strings: a name is accepted exactly when every element lies inside the matrix
+    (row digit below the row count, column digit below the column count), and the slots it yields are those elements."""
+    f = chk.facts
+    fn = chk.anchor("C03.anchor/read_matrix_subscript", f.fn("read_matrix_subscript", TY), "read_matrix_subscript")
+    if not fn:
+        return
+    ci = f.variants("ComponentIndex", "rssl_ir") or []
+    if not chk.anchor("C03.anchor/ComponentIndex", ci if len(ci) == 4 else None, "ComponentIndex with four variants", where(fn)):
+        return
+    ip = I.Interp(f)
+    loc = lambda v: I.Enum("Located", None, {"node": v, "location": I.Opaque("location")})
+    n = 0
+    bad = []
+    for x in (1, 2, 3, 4):
+        for y in (1, 2, 3, 4):
+            for s in matrix_subscript_names(x, y):
+                n += 1
+                want = matrix_subscript_reference(x, y, s)
+                try:
+                    r = ip.apply(fn, [I.Opaque("matrix type"), x, y, loc(s)])
+                except I.Unknown as e:
+                    return chk.unreadable("C03.matrix-elements/bounds", "read_matrix_subscript", e, where(fn))
+                got = None
+                if isinstance(r, I.Enum) and r.variant == "Ok" and isinstance(r.fields.get("0"), list):
+                    got = []
+                    for sl in r.fields["0"]:
+                        a, b = sl.fields.get("0"), sl.fields.get("1")
+                        got.append((ci.index(a.variant), ci.index(b.variant)) if isinstance(a, I.Enum) and isinstance(b, I.Enum) and a.variant in ci and b.variant in ci else None)
+                elif not (isinstance(r, I.Enum) and r.variant == "Err"):
+                    got = "?"
+                if got != want:
+                    bad.append((x, y, s, got, want))
+    why = "%d (shape, name) pairs: exactly the names whose elements lie inside the matrix are accepted, with those elements" % n
+    if bad:
+        x, y, s, got, want = bad[0]
+        why = "`m.%s` on a %dx%d matrix %s; %s (%d of %d pairs differ): an element outside the operand's type enters the IR, or a valid one is refused" % (
+            s, x, y, "is accepted as elements %s" % got if got is not None else "is refused",
+            "it names %s" % ("elements %s" % want if want is not None else "no element list of that matrix"), len(bad), n)
+    chk.ob("C03.matrix-elements/bounds", not bad, why, where(fn), sample={"pairs": n, "wrong": len(bad)})
 
 
 def rule_lvalue_destination(chk, prefix="C03.lvalue-dest"):
